@@ -120,6 +120,10 @@ ParseApiLog(tree, tfail, cfail) ==     \* <<transform log, check log, failed>>
   IF tl[2] THEN <<tl[1], <<>>, TRUE>>
   ELSE LET t2 == Transformed(tree) IN <<tl[1], CheckLog(t2, cfail), CheckFails(t2, cfail)>>
 
+\* a SECOND evaluation of the same node objects (no failure this time): evaluation keeps nothing on the nodes that would
+\* shorten or change a later one.  (Transform is different: it rebuilds the children IN PLACE, a transformed tree is a new input.)
+SecondEval(tree) == LET el == EvalLog(tree, 0, 1) IN [log |-> el[1], failed |-> el[2]]
+
 \* evaluation needs an interpreter for every non-terminal
 Evaluable(tree) == \A n \in 1..Len(tree) : tree[n].k = "nt" => tree[n].cap # "none"
 
